@@ -216,7 +216,7 @@ def cases(tier, seed):
     jobs = [(c, pi, tier, alt) for c in cs for pi in range(npools[c["id"]]) for alt in (0, 1)]
     ctx = mp.get_context("fork")
     with ctx.Pool(min(16, len(jobs)), maxtasksperchild=1) as pool:
-        _REF = dict(pool.map(_reference, jobs, chunksize=1))
+        _REF = dict(pool.map_async(_reference, jobs, chunksize=1).get(timeout=900))
     out = []
     for c in cs:
         for L in ((1, 2, 3) if tier == "quick" else (1, 2, 3, 4)):
